@@ -15,6 +15,7 @@ structure RO where
   verifies : Bool
   alg : String
   clientId : Option Str          -- client_id inside the object
+  iss : Option Str := none       -- iss inside the object (from_jwt picks the verification keys by it)
   params : Params                -- all parameters inside the object (incl. client_id when present)
   deriving Repr
 
@@ -34,13 +35,17 @@ inductive Res where
   deriving Repr
 
 /-- by value: `request.verify` merges (inner replaces everything), then — after the fix for
-    F-C16-a/b — the algorithm policy and the client match are enforced -/
+    F-C16-a/b/e — the algorithm policy, the issuer and the client match are enforced -/
 def byValue (p : Policy) (client : Str) (outer : Params) (ro : Option RO) : Res :=
   match ro with
   | none => .effective outer
   | some o =>
     if !o.verifies then .refused else
     if !allowedAlg p o.alg then .refused else
+    -- keys are looked up by the object's issuer: another issuer is refused (fix for F-C16-e), and a
+    -- signed object without issuer finds no key at all (NoSuitableSigningKeys)
+    if o.iss.isSome ∧ o.iss ≠ some client then .refused else
+    if o.iss.isNone ∧ o.alg ≠ "none" then .refused else
     if o.clientId.isSome ∧ o.clientId ≠ some client then .refused else
     -- outer parameters absent from the object are deleted — client_id included: an object without
     -- client_id leaves the request without one and the endpoint refuses it (UnknownClient)
